@@ -54,4 +54,11 @@ CHECKS = {
    text=("For every (device, terminal value in {0, None, 1, 0.5, 0.6+0.8j, 1e-3}, drive, screening) the real solver is run with save_every=1; at every recorded step psi on the terminal sites (recomputed with shapely) must equal the configured value "
          "(bitwise for 0), every other site's new psi must be reproduced from the previous recorded state by RM-step (explicit neighbour sums, extended precision), and with the value unset the frames must be bitwise those of the same mesh without terminals."),
    note="free-evolution clause skipped for screening runs (per-iteration link variables are not recorded); uses the stored dimensionless vector potential; devices outside the zoo not covered"),
+ "C17": dict(
+   engine="mc-core", category="model_checking", design_ref="DESIGN.md 3/C17",
+   technique="absolute state invariant (psi=1, mu=0, J=0) evaluated on every recorded step of an exhaustive product of undriven configurations, with an oracle-side stability classification",
+   text=("Every (mesh, gamma, u, adaptive, dt_max, screening) tuple of the product is run undriven to t=5 with terminals unpinned and unbiased; on every recorded step |psi-1|, |mu|, |Js|, |Jn|, |A_induced| must stay below 1e-9 "
+         "(observed: bitwise 0 or 3e-16), and with adaptivity on the recorded dt must reach dt_max and stay there. The oracle computes the explicit-Euler number S from the raw mesh; departures at S <= 2 are violations, "
+         "departures at S > 2 and gamma <= 1 are the recorded known finding."),
+   note="meshes outside the zoo and (gamma,u) outside the 5-point alphabet are not explored; a mesh whose singular mu Laplacian is flagged 'exactly singular' by SuperLU is recorded as unusable fixture"),
 }
